@@ -156,8 +156,21 @@ Definition unmarshal (m : message) (f : frame) (st : state) : reject + state :=
 
 (** Reset(): the declared start values. A bool field becomes true only for start value 1;
     integer fields take the start value as a constant of the field type. *)
+(** binary32 pattern of an integer constant assigned to a float32 field ([m.x = 5]); exact for
+    |n| < 2^24 (larger start values are outside the supported class: the low bits are dropped here) *)
+Definition f32_bits_of_int (n : Z) : Z :=
+  if n =? 0 then 0
+  else
+    let sign := if n <? 0 then 2 ^ 31 else 0 in
+    let m := Z.abs n in
+    let e := Z.log2 m in
+    let mant := if e <=? 23 then m * 2 ^ (23 - e) - 2 ^ 23 else m / 2 ^ (e - 23) - 2 ^ 23 in
+    sign + (e + 127) * 2 ^ 23 + mant.
+
 Definition reset_value (s : signal) : Z :=
-  if s_length s =? 1 then (if s_default s =? 1 then 1 else 0) else s_default s.
+  if s_length s =? 1 then (if s_default s =? 1 then 1 else 0)
+  else if (s_length s =? 32) && s_float s then f32_bits_of_int (s_default s)
+  else s_default s.
 Definition reset_state (m : message) : state := map reset_value (msg_signals m).
 Definition new_state := reset_state.
 
